@@ -32,20 +32,20 @@ None == <<"none">>
 (* ---- the classes (harness/c17_types.hpp declares the same members, mandatory counts and defaults) ---- *)
 Color == TEnum(<<cRed, cGreen, cBlue>>)                       \* JSONCONS_ENUM_TRAITS(Color, red, green, blue)
 Suit == TEnum(<<<<72>>, <<83>>>>)                             \* JSONCONS_ENUM_NAME_TRAITS(Suit, (hearts,"H"), (spades,"S"))
-SA == TStruct(<<Mem(cX, I32, TRUE, <<"i", 0>>), Mem(cY, TBool, TRUE, <<"b", FALSE>>)>>)                 \* ALL_MEMBER(SA, x, y)
-SN == TStruct(<<Mem(cA, I32, TRUE, <<"i", 7>>), Mem(cB, TBool, TRUE, <<"b", FALSE>>),                    \* N_MEMBER(SN, 2, a, b, c, d, e)
+SA == TStruct("member", <<Mem(cX, I32, TRUE, <<"i", 0>>), Mem(cY, TBool, TRUE, <<"b", FALSE>>)>>)                 \* ALL_MEMBER(SA, x, y)
+SN == TStruct("member", <<Mem(cA, I32, TRUE, <<"i", 7>>), Mem(cB, TBool, TRUE, <<"b", FALSE>>),                    \* N_MEMBER(SN, 2, a, b, c, d, e)
                 Mem(cC, TOpt(I32), FALSE, None), Mem(cD, TVec(I32), FALSE, <<"seq", <<>>>>), Mem(cE, I32, FALSE, <<"i", 7>>)>>)
-CG == TStruct(<<Mem(cA, I32, TRUE, <<"i", 0>>), Mem(cB, TStr, TRUE, <<"s", <<>>>>),                      \* N_CTOR_GETTER(CG, 2, a, b, c, e)
+CG == TStruct("ctor", <<Mem(cA, I32, TRUE, <<"i", 0>>), Mem(cB, TStr, TRUE, <<"s", <<>>>>),                      \* N_CTOR_GETTER(CG, 2, a, b, c, e)
                 Mem(cC, TOpt(I32), FALSE, None), Mem(cE, I32, FALSE, <<"i", 0>>)>>)
-GS == TStruct(<<Mem(cUA, I32, TRUE, <<"i", 5>>), Mem(cUB, TBool, FALSE, <<"b", TRUE>>)>>)                \* N_GETTER_SETTER(GS, get, set, 1, A, B)
-SNM == TStruct(<<Mem(cAlpha, I32, TRUE, <<"i", 1>>), Mem(cBeta, TOpt(TStr), FALSE, None)>>)              \* N_MEMBER_NAME(SNM, 1, (a,"alpha"), (b,"beta"))
-CGN == TStruct(<<Mem(cEx, I32, TRUE, <<"i", 0>>), Mem(cWhy, TVec(TStr), TRUE, <<"seq", <<>>>>)>>)        \* ALL_CTOR_GETTER_NAME(CGN, (x,"ex"), (y,"why"))
-GSN == TStruct(<<Mem(cP, TBool, TRUE, <<"b", FALSE>>), Mem(cQ, TOpt(I32), TRUE, None)>>)                 \* ALL_GETTER_SETTER_NAME(GSN, (getP,setP,"p"), (getQ,setQ,"q"))
-BoxI == TStruct(<<Mem(cItem, I32, TRUE, <<"i", 0>>)>>)                                                    \* TPL_ALL_MEMBER(1, Box, item)  Box<int>
-Outer == TStruct(<<Mem(cIn, SA, TRUE, <<"rec", <<<<"i", 0>>, <<"b", FALSE>>>>>>),                         \* N_MEMBER(Outer, 1, in, list, maybe)
+GS == TStruct("getset", <<Mem(cUA, I32, TRUE, <<"i", 5>>), Mem(cUB, TBool, FALSE, <<"b", TRUE>>)>>)                \* N_GETTER_SETTER(GS, get, set, 1, A, B)
+SNM == TStruct("member", <<Mem(cAlpha, I32, TRUE, <<"i", 1>>), Mem(cBeta, TOpt(TStr), FALSE, None)>>)              \* N_MEMBER_NAME(SNM, 1, (a,"alpha"), (b,"beta"))
+CGN == TStruct("ctor", <<Mem(cEx, I32, TRUE, <<"i", 0>>), Mem(cWhy, TVec(TStr), TRUE, <<"seq", <<>>>>)>>)        \* ALL_CTOR_GETTER_NAME(CGN, (x,"ex"), (y,"why"))
+GSN == TStruct("getset", <<Mem(cP, TBool, TRUE, <<"b", FALSE>>), Mem(cQ, TOpt(I32), TRUE, None)>>)                 \* ALL_GETTER_SETTER_NAME(GSN, (getP,setP,"p"), (getQ,setQ,"q"))
+BoxI == TStruct("member", <<Mem(cItem, I32, TRUE, <<"i", 0>>)>>)                                                    \* TPL_ALL_MEMBER(1, Box, item)  Box<int>
+Outer == TStruct("member", <<Mem(cIn, SA, TRUE, <<"rec", <<<<"i", 0>>, <<"b", FALSE>>>>>>),                         \* N_MEMBER(Outer, 1, in, list, maybe)
                    Mem(cList, TVec(SA), FALSE, <<"seq", <<>>>>), Mem(cMaybe, TOpt(SA), FALSE, None)>>)
-D1 == TStruct(<<Mem(cP, I32, TRUE, <<"i", 0>>), Mem(cQ, I32, TRUE, <<"i", 0>>), Mem(cT, I32, FALSE, <<"i", 3>>)>>)   \* N_MEMBER(D1, 2, p, q, t)
-D2 == TStruct(<<Mem(cR, TBool, TRUE, <<"b", FALSE>>)>>)                                                   \* ALL_MEMBER(D2, r)
+D1 == TStruct("member", <<Mem(cP, I32, TRUE, <<"i", 0>>), Mem(cQ, I32, TRUE, <<"i", 0>>), Mem(cT, I32, FALSE, <<"i", 3>>)>>)   \* N_MEMBER(D1, 2, p, q, t)
+D2 == TStruct("member", <<Mem(cR, TBool, TRUE, <<"b", FALSE>>)>>)                                                   \* ALL_MEMBER(D2, r)
 Base == TPoly(<<D1, D2>>)                                                                                  \* POLYMORPHIC(Base, D1, D2)
 
 Family == [
@@ -131,8 +131,19 @@ Devs(T, j) ==
     [] T[1] = "enum" -> IF j = JStr(<<>>) THEN {"enum-empty-string"} ELSE {}
     [] T[1] = "struct" ->
          IF ~IsObj(j) THEN {}
-         ELSE UNION { IF T[2][i].n \in DOMAIN j[2] THEN Devs(T[2][i].t, j[2][T[2][i].n]) ELSE {} : i \in 1..Len(T[2]) }
+         ELSE (IF T[3] = "member" /\ DOMAIN j[2] \ {T[2][i].n : i \in 1..Len(T[2])} # {}
+               THEN {"unknown-member-streaming"} ELSE {})
+              \cup UNION { IF T[2][i].n \in DOMAIN j[2] THEN Devs(T[2][i].t, j[2][T[2][i].n]) ELSE {} : i \in 1..Len(T[2]) }
     [] OTHER -> {}
+
+(* BSON documents are rooted in an object, and the format cannot tell an array from an object at the root
+   (an array is a document with index keys): BSON takes part only where the type is read from / written to
+   an object at the root (DESIGN 5/C17: "BSON where rooted in an object") *)
+RECURSIVE RootObj(_)
+RootObj(X) == CASE X[1] \in {"map", "imap", "struct"} -> TRUE
+                [] X[1] \in {"opt", "ptr"} -> RootObj(X[2])
+                [] X[1] \in {"var", "poly"} -> \A k \in 1..Len(X[2]) : RootObj(X[2][k])
+                [] OTHER -> FALSE
 
 (* ---- state machine ---- *)
 Init == ph = 0 /\ ty = "" /\ val = None /\ doc = JNull
@@ -144,10 +155,11 @@ Next == \/ /\ ph = 0 /\ ph' = 1 /\ doc' = JNull
 
 CurT == Family[ty]
 ValCase == [k |-> "val", ty |-> ty, v |-> VWire(val), img |-> Wire(ToJ(CurT, val)),
-            ij |-> Mentions(CurT, {"bits", "secs"}), dev |-> {}]
+            ij |-> Mentions(CurT, {"bits", "secs"}), bson |-> IsObj(ToJ(CurT, val)) /\ RootObj(CurT),
+            dev |-> IF Mentions(CurT, {"bits"}) THEN {"ubjson-bitset"} ELSE {}]
 InpCase == LET r == FromJ(CurT, doc) IN
            [k |-> "inp", ty |-> ty, d |-> Wire(doc), r |-> r[1], v |-> IF r[1] = "ok" THEN VWire(r[2]) ELSE <<"none">>,
-            dev |-> Devs(CurT, doc)]
+            bson |-> IsObj(doc) /\ RootObj(CurT), dev |-> Devs(CurT, doc)]
 Emit == CASE ph = 1 -> PrintT(ToJson(ValCase)) [] ph = 2 -> PrintT(ToJson(InpCase)) [] OTHER -> TRUE
 
 (* ---- model-internal obligations ---- *)
